@@ -24,38 +24,38 @@ CHECKS = {
  "C06": C("fuzz-style robustness search: proptest input pools + exhaustive short strings through the whole public API under catch_unwind with overflow checks and debug assertions; CPU-time scaling measurement; libFuzzer+ASan target in the thorough tier",
    "Long inputs and operands with thousands of alternatives run in supervised child processes on a 256 KiB stack (a child killed by a signal - stack overflow, abort - is a violation). Pools of adversarial strings go through both parsers, every error accessor/diagnostic, every unary operation and all binary operations on all ordered pairs (incl. self) and on their results to depth 3, in a build with arithmetic-overflow checks and debug assertions; any panic is a violation. A watchdog reports a hang as inconclusive; CPU-time ratios t(8n)/t(n) of 16 adversarial input families decide the linear-time clause." + EXPL,
    "the time clause is attacked only through fixed adversarial families (an input-specific super-linear path outside them would be missed); binary operations are O(|A||B|) by nature and operands are capped at 64 alternatives", "6/C06"),
- "C07": C("property-based testing with a pointwise set-semantics oracle on interval models read from Display; exact emptiness computation for None",
+ "C07": C("property-based testing with a pointwise set-semantics oracle on interval models read from Display; exact emptiness computation for None; libFuzzer target algebra_c07_c15 (bytes -> expression trees over one version pool, same relation and oracle inside the target) in the thorough tier",
    "Pairs of Range values (leaves over an adjacent-version pool, or results of earlier operations) are intersected; membership in bounds, satisfies() for releases and the two prerelease implications are compared at ~40 probes per bound with the boolean combination of the operands' own answers; None requires an exactly empty overlap; commutativity and idempotence are checked pointwise." + EXPL,
    "bounds membership of a Range value is read from its canonical Display (a 30-line tokenizer; unreadable output is exit 2)", "6/C07"),
- "C08": C("property-based testing with a pointwise set-semantics oracle incl. the partition law A = (A∩B) ⊎ (A\\B); exact remainder computation for None",
+ "C08": C("property-based testing with a pointwise set-semantics oracle incl. the partition law A = (A∩B) ⊎ (A\\B); exact remainder computation for None; libFuzzer target algebra_c07_c15 (bytes -> expression trees over one version pool, same relation and oracle inside the target) in the thorough tier",
    "As C07 for difference, with multi-alternative subtrahends, subtrahends inside the minuend and touching its endpoints: within(A\\B) == within(A) && !within(B) for every alternative of B, release satisfies, exact None, and the partition with intersect." + EXPL,
    "as C07; satisfies() of prereleases on the result is not asserted beyond bounds", "6/C08"),
- "C09": C("exhaustive enumeration of bound-kind x relative-position pairs + property-based pairs: three-way equivalence allows_any / intersect.is_some / reversed, probes and exact-version ranges",
+ "C09": C("exhaustive enumeration of bound-kind x relative-position pairs + property-based pairs: three-way equivalence allows_any / intersect.is_some / reversed, probes and exact-version ranges; libFuzzer target algebra_c07_c15 (bytes -> expression trees over one version pool, same relation and oracle inside the target) in the thorough tier",
    "Every ordered pair of the 91 single intervals over an adjacent 6-version chain (all inclusive/exclusive/unbounded combinations), unions over a stratified subset, and random pairs: allows_any must equal intersect.is_some() and its mirror image, be false for separated or merely touching ranges, true whenever a probe satisfies both, and agree with bounds membership for exact-version ranges." + EXPL,
    "true for an overlap that is bound-wise valid but holds no version (e.g. >1.0.0 <1.0.1-0) is not contradicted by the statement and is not flagged", "6/C09"),
- "C10": C("exhaustive enumeration of bound-kind pairs + property-based pairs: soundness implication checked exactly on interval models and on probes, link to difference",
+ "C10": C("exhaustive enumeration of bound-kind pairs + property-based pairs: soundness implication checked exactly on interval models and on probes, link to difference; libFuzzer target algebra_c07_c15 (bytes -> expression trees over one version pool, same relation and oracle inside the target) in the thorough tier",
    "allows_all(A,B)=true must imply (exactly, by interval computation, and at every probe) that nothing of the single-alternative B lies outside A, imply allows_any, hold reflexively, and for single-alternative A equal B.difference(A).is_none()." + EXPL,
    "completeness for multi-alternative A is not asserted (the statement gives only the implication)", "6/C10"),
- "C11": C("property-based extremal witness search: exact least element on the interval model + boundary probes, every verdict confirmed against the crate's own satisfies()",
+ "C11": C("property-based extremal witness search: exact least element on the interval model + boundary probes, every verdict confirmed against the crate's own satisfies(); libFuzzer target algebra_c07_c15 (bytes -> expression trees over one version pool, same relation and oracle inside the target) in the thorough tier",
    "For ranges from the grammar generator, from algebra results and from the statement's named shapes, min_version() must satisfy the range, no lower candidate may satisfy it, and None requires that no candidate satisfies; candidates are the exact least satisfying version of each interval (discrete-order argument) plus ~40 probes per bound." + EXPL,
    "only the crate's own satisfies() decides a witness", "6/C11"),
  "C12": C("property-based round-trip testing over generated spellings and struct literals, incl. serde",
    "Versions parsed from generated spellings (all loose forms, values at MAX_SAFE_INTEGER, lengths at MAX_LENGTH) or built from canonical identifiers are printed and re-parsed: five-field equality, print fixed point, serde JSON == quoted print and round-trips through from_str, from_value, from_reader and fully escaped text; Display into failing writers and under width/alignment/sign flags must leave the text intact." + EXPL,
    "one known finding (256-byte hyphenless prerelease prints as 257 bytes) is excluded by signature", "6/C12"),
- "C13": C("property-based round-trip testing over parsed ranges and intersect/difference expression trees, pointwise equivalence + equality + print fixed point + serde",
+ "C13": C("property-based round-trip testing over parsed ranges and intersect/difference expression trees, pointwise equivalence + equality + print fixed point + serde; libFuzzer target algebra_c07_c15 (bytes -> expression trees over one version pool, same relation and oracle inside the target) in the thorough tier",
    "Ranges from Range::parse and from compositions of set operations are printed and re-parsed: satisfies() and bounds membership unchanged at ~40 probes per bound, == (and equal hashes, equal clones) for parsed ranges, second print stable, serde round trip through four front ends, Display robust against failing writers and format flags." + EXPL,
    "one known finding (a desugared bound component MAX_SAFE_INTEGER+1 prints but does not re-parse) is excluded by signature on the printed text", "6/C13"),
  "C14": C("property-based testing with a validity predicate over the output (element of the slice by pointer identity, satisfies, extreme by the model order) and permutation invariance",
    "For generated ranges (parsed, or results of set operations, or Range::any()) and lists of 0..12 or 60..140 versions drawn at and around the bounds (incl. versions above MAX.MAX.MAX) (duplicates, build-only differences, gated-out prereleases above the best release), max/min_satisfying must return None exactly when nothing satisfies, otherwise a pointer into the slice that satisfies and is extreme by an independent SemVer comparison, unchanged under permutations up to precedence-equal elements." + EXPL,
    "relative to the crate's own satisfies(), as the statement is", "6/C14"),
- "C15": C("property-based testing over expression trees: boolean evaluation from the leaves' interval models as oracle for 15 composite trees per case (all listed identities at once), re-parse and re-use of every result",
+ "C15": C("property-based testing over expression trees: boolean evaluation from the leaves' interval models as oracle for 15 composite trees per case (all listed identities at once), re-parse and re-use of every result; libFuzzer target algebra_c07_c15 (bytes -> expression trees over one version pool, same relation and oracle inside the target) in the thorough tier",
    "Triples of expression trees are combined into 15 composites of depth <= 3; membership in the bounds of every crate-computed value (and satisfies() for releases) must equal the boolean evaluation of the tree from the leaves' models at probes around every bound in the trees; every result must print, re-parse pointwise-equal and work as an operand again." + EXPL,
    "bounds membership is read from Display; operands capped at 64 alternatives", "6/C15"),
  "C16": C("exhaustive small-scope pairs + property-based pairs against a model port of node-semver's diff (golden-validated), symmetry, None<=>equal, build invariance",
    "All 46,656 ordered pairs of a 216-version scope and random related pairs: diff must equal the model port of node-semver 7.6 diff (itself replayed against 63k frozen node answers), be symmetric, None exactly for precedence-equal versions, and ignore build metadata." + EXPL,
    "node-semver 7.6.2 functions/diff.js is the reference for 'the release type node-semver reports'", "6/C16"),
  "C17": C("exhaustive short strings + single edits + limit family + proptest multi-line/multi-byte inputs; validity predicates on every returned error (input, offset, location, diagnostics, prescribed kinds)",
-   "Every Err of Version::parse / Range::parse over the C05 domains plus garbage-only ranges and over-long multi-line inputs must carry the original input, a char-boundary offset, the recomputed line/column, renderable miette diagnostics, and the kind the statement prescribes (MaxLengthError, MaxIntError(value)@component, ParseIntError, NoValidRanges)." + EXPL,
+   "Every Err of Version::parse / Range::parse over the C05 domains plus garbage-only ranges, over-long multi-line inputs and very long inputs (up to 3 MB, both sides of 2^9..2^20) must carry the original input, a char-boundary offset, the recomputed line/column, renderable miette diagnostics, and the kind the statement prescribes (MaxLengthError, MaxIntError(value)@component, ParseIntError, NoValidRanges)." + EXPL,
    "column unit (bytes or chars) left open; miette's fancy handler cannot be built offline", "6/C17"),
  "C18": C("exhaustive u8/i8 tuples + boundary cross product + proptest across all ten integer types, differential against struct fields, Display and Version::parse",
    "Value tuples (exhaustive u8/i8, every triple over {0,1,2,..,2^k-1,2^k,2^k+1,MAX-1,MAX}, decimal-structured values d*10^k / 10^k+-1 / m*10^k in every position, random incl. log-uniform) are pushed through every integer type that can hold them; fields must equal the numbers, Display must be a.b.c[-d], Version::parse of that text must give the same five fields." + EXPL,
